@@ -118,11 +118,12 @@ impl LanguageServer for Server {
     ) -> BoxFuture<'static, Result<Option<GotoDefinitionResponse>, Self::Error>> {
         tracing::info!("goto_definition: {params:?}");
         let task = self.spawn_with_snapshot(params, move |snap, params| {
-            let (pos, line_index) =
-                from_proto::file_pos(&snap, params.text_document_position_params);
+            let (pos, _) = from_proto::file_pos(&snap, params.text_document_position_params);
             let Some(location) = snap.analysis.goto_definition(pos) else {
                 return Ok(None);
             };
+            // the target may lie in another file: use that file's line table
+            let line_index = snap.analysis.line_index(location.file);
 
             #[cfg(feature = "verif")]
             let _released = crate::verif::OnDrop(crate::verif::Ev::VfsReadReleased("definition"));
@@ -143,7 +144,7 @@ impl LanguageServer for Server {
     ) -> BoxFuture<'static, Result<Option<Vec<Location>>, Self::Error>> {
         tracing::info!("references: {params:?}");
         let task = self.spawn_with_snapshot(params, move |snap, params| {
-            let (pos, line_index) = from_proto::file_pos(&snap, params.text_document_position);
+            let (pos, _) = from_proto::file_pos(&snap, params.text_document_position);
             let Some(location_list) = snap.analysis.references(pos) else {
                 return Ok(None);
             };
@@ -154,9 +155,10 @@ impl LanguageServer for Server {
             let vfs = snap.vfs.read().unwrap();
             #[cfg(feature = "verif")]
             crate::verif::point(crate::verif::Ev::VfsReadAcquired("references"));
+            // each reference is expressed in the line table of the file it lies in
             let lsp_location_list = location_list
                 .into_iter()
-                .map(|it| to_proto::location(&vfs, &line_index, it))
+                .map(|it| to_proto::location(&vfs, &snap.analysis.line_index(it.file), it))
                 .collect();
             Ok(Some(lsp_location_list))
         });
